@@ -35,15 +35,13 @@ REWRITERS = [mt.RemoveEmptyContainers(), mt.RewriteConfigDict(), mt.RewriteLarge
 
 
 def norm_json(text):
-    """union member order and TypedDict field order do not matter"""
+    """format-agnostic normal form: every JSON array is sorted by the text of its elements, every object by key - so union
+    member order and TypedDict field order do not matter (tuple element order is checked by the round trip instead)"""
     def n(d):
         if isinstance(d, dict):
-            d = {k: n(v) for k, v in d.items()}
-            if d.get("qualname") == "Union" and d.get("module") == "typing" and isinstance(d.get("elem_types"), list):
-                d["elem_types"] = sorted(d["elem_types"], key=lambda x: json.dumps(x, sort_keys=True))
-            return d
+            return {k: n(v) for k, v in sorted(d.items())}
         if isinstance(d, list):
-            return [n(x) for x in d]
+            return sorted((n(x) for x in d), key=lambda x: json.dumps(x, sort_keys=True))
         return d
     return json.dumps(n(json.loads(text)), sort_keys=True)
 
